@@ -102,3 +102,14 @@ def m_harnesses(pid, tier):
     except ImportError:
         return []
     return mprops.select(pid, tier)
+
+
+def assumptions_for(pid):
+    sp = PROPS[pid]
+    out = ["rustc nightly's MIR / stable-MIR / expanded printers are faithful to the compiled program",
+           "mirsym's models of std/core/alloc (Vec, slices, iterators, Option/Result, maps and sets as association lists, checked arithmetic, allocation limits); every reported counterexample is first reproduced natively",
+           "z3 answers (10 s per query; unknown = inconclusive path)",
+           "uninterpreted: SHA-256, the state behind StateRead, the per-node program runner (where the harness says so)"]
+    if pid in K_SEL: out.append("Kani 0.68 / CBMC 6.11: MIR->GOTO translation, unwinding assertions on, sequential shim for rayon")
+    out += ["outside the claim: " + x for x in sp.get("outside", [])]
+    return out
